@@ -56,3 +56,22 @@ Example C09_witness :
   /\ l_div 8 false 0x08 0x10 = 0x78 /\ l_div 8 true 0x08 0x40 = 0xc0 /\ l_add_accept 8 3 true 0x00 0x00 0x08 = true
   /\ l_add_accept 8 3 true 0x00 0x00 0x0a = false.
 Proof. vm_compute. repeat split; reflexivity. Qed.
+
+(* ---- add / sub (and C03's conversions) are decided per case with enclosures of 2^(m/2^r); the enclosures are sound, for every r and
+   every exponent, stated without real numbers: with i = m / 2^r, j = m mod 2^r the pair is (lo, hi) * 2^(i - PREC) where
+   lo^(2^r) <= 2^(j + PREC 2^r) <= hi^(2^r), i.e. lo / 2^PREC <= 2^(j/2^r) <= hi / 2^PREC ---- *)
+From Coq Require Import List Lia. Import ListNotations.
+From UV Require Import LnsEnc PositMono2.
+Theorem C09_fraction_enclosure_sound : forall r j, 0 <= r -> 0 <= j < 2^r ->
+  let e := frac_enc (lns_roots r) j (r - 1) (2^PREC, 2^PREC) in
+  (0 <= fst e /\ (fst e) ^ (2^r) <= 2 ^ (j + PREC * 2^r)) /\ (0 <= snd e /\ 2 ^ (j + PREC * 2^r) <= (snd e) ^ (2^r)).
+Proof. intros r j Hr Hj. exact (frac_enclosure r Hr j Hj). Qed.
+Print Assumptions C09_fraction_enclosure_sound.
+Theorem C09_enclosure_is_scaled_fraction : forall r m, let i := m / 2^r in - (PREC + 8) <= i <= 8 ->
+  pow2_enc r m = (let e := frac_enc (lns_roots r) (m mod 2^r) (r - 1) (2^PREC, 2^PREC) in
+                  ((inject_Z (fst e) * pow2Q (i - PREC))%Q, (inject_Z (snd e) * pow2Q (i - PREC))%Q)).
+Proof.
+  intros r m i Hi. unfold pow2_enc, pow2_enc_r. fold i.
+  destruct (Z.ltb_spec i (- (PREC + 8))); [lia|]. destruct (Z.ltb_spec 8 i); [lia|]. reflexivity.
+Qed.
+Print Assumptions C09_enclosure_is_scaled_fraction.
